@@ -348,6 +348,60 @@ func driveDvi(r *rand.Rand, w *writer, n int) {
 		for k := 0; k < np; k++ {
 			in.a = append(in.a, decPoly(r, lim, 3+r.Intn(5)))
 		}
+		// a third of the inputs are structured AFTER quantisation: collinear runs, spikes whose feet quantise
+		// together, duplicates, shared edges - decimals n / 10^d that round to a structured integer path at
+		// precision p (sub-grid jitter of at most 0.4 grid units, so never a tie)
+		structured := r.Intn(3) == 0 || (e.Api == "TrimCollinearD" && r.Intn(2) == 0)
+		if structured {
+			e.P = r.Intn(4)
+			k := r.Intn(3)
+			e.D = e.P + k
+			pow := int64(1)
+			for j := 0; j < k; j++ {
+				pow *= 10
+			}
+			jit := func() int64 {
+				if k == 0 {
+					return 0
+				}
+				return r.Int63n(8*pow/10+1) - 4*pow/10
+			}
+			mk := func(q Path) decPath {
+				out := make(decPath, len(q))
+				for j, v := range q {
+					out[j] = [2]int64{v[0]*pow + jit(), v[1]*pow + jit()}
+				}
+				return out
+			}
+			var qs Paths
+			sel := r.Intn(4)
+			if e.Api == "TrimCollinearD" {
+				sel = r.Intn(2)
+			}
+			switch sel {
+			case 0:
+				qs = Paths{trimPath(r)}
+			case 1:
+				qs = Paths{antennaPath(r)}
+			case 2:
+				qs = genClosedSet(r, 7)
+			default:
+				qs = genClosedSet(r, r.Intn(3))
+			}
+			if len(qs) > 2 {
+				qs = qs[:2]
+			}
+			in.a = nil
+			for _, q := range qs {
+				if len(q) > 0 {
+					in.a = append(in.a, mk(q))
+				}
+			}
+			if len(in.a) == 0 {
+				in.a = []decPath{mk(Path{{0, 0}, {10, 0}, {10, 10}})}
+			}
+			lim = 400 * pow
+		}
 		switch e.Api {
 		case "RectClipPathsD", "RectClipLinesPathsD":
 			x0, x1 := r.Int63n(2*lim+1)-lim, r.Int63n(2*lim+1)-lim
